@@ -149,6 +149,7 @@ let spec input obs =
     let qi = ref 0 in
     let cursor = ref None in
     let damaged = ref false in
+    let distinct_cache = ref None in
     let acc = ref [] and listings = ref [] in      (* interleaved walk: contents so far, listings seen *)
     let next () = let b = Stdlib.List.hd !blocks in blocks := Stdlib.List.tl !blocks; incr qi; b in
     (* one observed page against the declarative page for (batch, key); returns the parsed page *)
@@ -172,13 +173,16 @@ let spec input obs =
           end;
           Some got in
     Stdlib.List.iter (function
-        | Sub sub -> ss := fst (ChainSpec.spec_step h.forbidden !ss sub)
+        | Sub sub -> ss := fst (ChainSpec.spec_step h.forbidden !ss sub); distinct_cache := None
         | Q ("z", _) -> cursor := None; acc := []; listings := []
         | Q ("d", _) -> damaged := true
         | Q (_, _) when !damaged -> ignore (next ())       (* outside the quantifier: model = implementation only *)
         | Q (t, a) when !verdict = "OK" ->
           let b = next () in
-          let distinct = Merkle.roots_distinct_b !ss in
+          (* quadratic in the store size: computed once per store *)
+          let distinct = match !distinct_cache with
+            | Some d -> d
+            | None -> let d = Merkle.roots_distinct_b !ss in distinct_cache := Some d; d in
           let tip = ChainSpec.spec_tip !ss in
           if not distinct then begin
             (* outside the quantifier of the property: only model = implementation is required *)
